@@ -32,7 +32,7 @@ BUDGET = {
 
 @st.composite
 def _planted(draw, tier):
-    desc = draw(gen.wellformed(max_targets=6, max_files=9, spellings=(0, 1, 2), shapes=(0, 2, 4, 5),
+    desc = draw(gen.wellformed(max_targets=6, max_files=9, spellings=(0, 1, 2, 4, 5, 7), shapes=(0, 2, 4, 5),
                                allow_missing_outputs=True, min_targets=2))
     kind = draw(st.sampled_from(["cycle", "selfloop", "dup", "missing"]))
     ts = desc["targets"]
@@ -53,7 +53,7 @@ def _planted(draw, tier):
         owners = [(t, p) for t in ts for p in model.T(t).outset]
         if owners:
             t, p = draw(st.sampled_from(owners))
-            ts.append({"name": "dupper", "inputs": [], "outputs": [gen.spell(p, draw(st.sampled_from([0, 1, 2, 3])))],
+            ts.append({"name": "dupper", "inputs": [], "outputs": [gen.spell(p, draw(st.sampled_from([0, 1, 2, 3, 4, 5, 7])))],
                        "spec": "true\n", "wd": None})
         else:
             ts.append({"name": "d1", "inputs": [], "outputs": ["dd/x"], "spec": "true\n", "wd": None})
@@ -75,14 +75,19 @@ def _chain(draw, tier):
     fan = draw(st.sampled_from([0, 0, 50, 500]))
     state = draw(st.sampled_from(["fresh", "done", "broken-middle"]))
     return {"kind": "chain", "n": n, "order": order, "fan": fan, "state": state,
-            "perm_seed": draw(st.integers(0, 10**6))}
+            "perm_seed": draw(st.integers(0, 10**6)), "collector": draw(st.booleans()),
+            "names": draw(st.sampled_from(["asc", "desc"]))}
 
 
 def chain_desc(c):
     n = c["n"]
     ts, files = [], {"c/src": 1}
+    # names: the steps are numbered along the chain, or against it (then the names sort against the dependency order)
+    def nm(i):
+        return f"c{i}" if c.get("names") != "desc" else f"step_{n - 1 - i:05d}"
+
     for i in range(n):
-        ts.append({"name": f"c{i}", "inputs": ["c/src"] if i == 0 else [f"c/o{i - 1}"], "outputs": [f"c/o{i}"],
+        ts.append({"name": nm(i), "inputs": ["c/src"] if i == 0 else [f"c/o{i - 1}"], "outputs": [f"c/o{i}"],
                    "spec": "true\n", "wd": None})
         tick = None if c["state"] == "fresh" else 2 + i
         if c["state"] == "broken-middle" and i == n // 2:
@@ -91,6 +96,10 @@ def chain_desc(c):
     for j in range(c["fan"]):
         ts.append({"name": f"w{j}", "inputs": [f"c/o{n - 1}"], "outputs": [f"c/w{j}"], "spec": "true\n", "wd": None})
         files[f"c/w{j}"] = None
+    if c.get("collector"):
+        # a final report that reads the result of every step
+        ts.append({"name": "report", "inputs": [f"c/o{i}" for i in range(n)], "outputs": ["c/report"], "spec": "true\n", "wd": None})
+        files["c/report"] = None
     if c["order"] == "reverse":
         ts.reverse()
     elif c["order"] == "shuffle":
@@ -108,7 +117,7 @@ def hash_name(name, k):
 
 def strategy(tier):
     big = tier == "thorough"
-    free = gen.freeform(max_targets=9 if big else 6).map(lambda d: {"kind": "free", "desc": d})
+    free = gen.freeform(max_targets=9 if big else 6, spellings=(0, 1, 2, 4, 7)).map(lambda d: {"kind": "free", "desc": d})
     parts = [free] * 6 + [_planted(tier)] * 5
 
     @st.composite
@@ -130,6 +139,11 @@ def enumerate_cases(tier):
             for fan in (0, 300):
                 for state in ("fresh", "done", "broken-middle"):
                     yield {"kind": "chain", "n": n, "order": order, "fan": fan, "state": state, "perm_seed": n + fan}
+    for n in (300, 1500) + ((3000,) if tier == "thorough" else ()):
+        for names in ("asc", "desc"):
+            for state in ("fresh", "done"):
+                yield {"kind": "chain", "n": n, "order": "forward", "fan": 0, "state": state, "perm_seed": n, "collector": True,
+                       "names": names}
 
 
 def run_case(case):
